@@ -73,6 +73,8 @@ def judge(gen, ops, readings, base):
     init_ok = any(x == "RESULT init True" for o in out[:base] for x in o)
     cache = (None, None)
     for i, (op, o) in enumerate(zip(ops, out)):
+        if op == "shutdown":
+            ref = apiref.Ref(gen)          # a later init() rebuilds the model from scratch
         ref.feed(op, readings.get(op))
         if i < base:
             continue
@@ -248,6 +250,12 @@ def build_jobs(ctx, thorough):
             inst, frames = random_script(ctx.rng, gen, length)
             hs = C.handshake(gen, inst)
             jobs.append((gen, "random-%d" % k, hs + ["view"] + with_views(frames), len(hs)))
+        # a second session on the same object: shutdown(), then init() against a console describing ANOTHER installation
+        for k in range(24 if thorough else 6):
+            inst1, frames1 = random_script(ctx.rng, gen, 12)
+            inst2, frames2 = random_script(ctx.rng, gen, 40)
+            hs1, hs2 = C.handshake(gen, inst1), C.handshake(gen, inst2)
+            jobs.append((gen, "second-session-%d" % k, hs1 + with_views(frames1) + ["shutdown"] + hs2 + ["view"] + with_views(frames2), len(hs1)))
     return jobs
 
 
